@@ -16,11 +16,12 @@ class CubeRead(Contract):
     every (model, aperture, wavelength) cell keeps its value; names, validity and apertures untouched."""
     name = CUBE + 'BaseCube.read'
     properties = ('C12',)
-    variants = ('nu/unc/ap', 'wav/unc/ap', 'nu/nounc/noap', 'wav/nounc/ap')
+    variants = ('nu/unc/ap', 'wav/unc/ap', 'nu/nounc/noap', 'wav/nounc/ap', 'nu/unc/ap/Jy')
 
     def setup(self, c, variant):
         from sedvc.interp import ClassVal
-        order, unc, ap = variant.split('/')
+        order, unc, ap = variant.split('/')[:3]
+        bunit = U['Jy'] if variant.endswith('/Jy') else U['mJy']       # the unit the cube is stored in (BUNIT)
         M, A, W = c.int('n_models'), c.int('n_ap'), c.int('n_wav')
         c.assume([M >= 1, A >= 1, W >= 2])
         if ap == 'noap':
@@ -28,14 +29,14 @@ class CubeRead(Contract):
         self.file = f = dict(wav=c.array('file_wav', (W,)), ap=c.array('file_ap', (A,)) if ap == 'ap' else None,
                              val=c.array('file_val', (M, A, W)), unc=c.array('file_unc', (M, A, W)) if unc == 'unc' else None,
                              names=c.array('file_names', (M,), kind='int'), valid=c.array('file_valid', (M,), kind='int'),
-                             dist=c.real('file_dist_cm'))
+                             dist=c.real('file_dist_cm'), bunit=bunit)
         names = {'MODEL_NAMES': hdu(c, fields={'MODEL_NAME': f['names']}, units=[None]),
                  'SPECTRAL_INFO': hdu(c, fields={'WAVELENGTH': f['wav']}, units=[U['micron'], U['Hz']]),
-                 'VALUES': hdu(c, header={'BUNIT': U['mJy']}, data=f['val'])}
+                 'VALUES': hdu(c, header={'BUNIT': bunit}, data=f['val'])}
         if f['ap'] is not None:
             names['APERTURES'] = hdu(c, fields={'APERTURE': f['ap']}, units=[U['au']])
         if f['unc'] is not None:
-            names['UNCERTAINTIES'] = hdu(c, header={'BUNIT': U['mJy']}, data=f['unc'])
+            names['UNCERTAINTIES'] = hdu(c, header={'BUNIT': bunit}, data=f['unc'])
         h0 = hdu(c, header={'DISTANCE': f['dist']}, data=f['valid'])
         hl = hdulist(c, [h0], names=names)
         c.interp.ext['astropy.io.fits.open'] = lambda interp, st, fr, args, kw: hl
@@ -60,11 +61,12 @@ class CubeRead(Contract):
         f = self._file(c, a)
         M, W = c.A(f['names']).n, c.A(f['wav']).n
         A = c.A(f['val']).shape[1]
+        bunit = f.get('bunit', U['mJy'])
         attrs = dict(_valid=None, _names=f['names'], _distance=Quantity(f['dist'], U['cm']), _nu=None,
                      _wav=Quantity(c.fresh_array('cube_r_wav', (W,)), U['micron']),
                      _apertures=Quantity(f['ap'], U['au']) if f['ap'] is not None else None,
-                     _val=Quantity(c.fresh_array('cube_r_val', (M, A, W)), U['mJy']),
-                     _unc=Quantity(c.fresh_array('cube_r_unc', (M, A, W)), U['mJy']) if f['unc'] is not None else None)
+                     _val=Quantity(c.fresh_array('cube_r_val', (M, A, W)), bunit),
+                     _unc=Quantity(c.fresh_array('cube_r_unc', (M, A, W)), bunit) if f['unc'] is not None else None)
         return c.obj(CUBE + 'SEDCube', **attrs)
 
     def requires(self, c, a):
@@ -104,7 +106,9 @@ class CubeRead(Contract):
                 continue
             T, G = c.A(f[key]), c.A(q)
             out['cells(%s)' % nm] = [compare('==', G.shape[0], T.shape[0]), compare('==', G.shape[1], T.shape[1]), compare('==', G.shape[2], n),
-                                     c.forall([T.shape[0], T.shape[1], n], (lambda G, T, q: lambda m, i, k: G[m, i, k] * q.unit.scale == T[m, i, src(k)] * U['mJy'].scale)(G, T, q), 'cells')]
+                                     c.forall([T.shape[0], T.shape[1], n], (lambda G, T, q: lambda m, i, k: G[m, i, k] * q.unit.scale == T[m, i, src(k)] * f.get('bunit', U['mJy']).scale)(G, T, q), 'cells'),
+                                     # (and in the unit it is stored in: consumers that work on bare values rely on it)
+                                     q.unit.scale == f.get('bunit', U['mJy']).scale]
         nm_ = c.A(c.attr(result, '_names'))
         FN = c.A(f['names'])
         out['names'] = [compare('==', nm_.n, FN.n), c.forall(FN.n, lambda m: nm_[m] == FN[m], 'names')]
